@@ -102,6 +102,9 @@ func hostileStrings(cur string) []interface{} {
 // hostiles enumerates the hostile variants of one valid transaction (deterministic order).
 func hostiles(t *harness.TxSpec) []hostile {
 	var out []hostile
+	// the valid transaction itself: what it stores may be what a LATER block hook trips over (every accepted
+	// input is followed by the scenario's remaining blocks, see c18Exec)
+	out = append(out, hostile{"valid-target", t.Bytes()})
 	sign := func(name string, data []byte, typ action.Type) {
 		c := *t
 		c.Data = data
@@ -292,7 +295,9 @@ func hostiles(t *harness.TxSpec) []hostile {
 		func(c *harness.TxSpec) { c.Fee.Price.Currency = "XXX" },
 		func(c *harness.TxSpec) { c.Fee.Price.Currency = "ETH" },
 		func(c *harness.TxSpec) { c.Fee.Price.Value = harness.Amt("-1000000000") },
-		func(c *harness.TxSpec) { c.Fee.Price.Value = harness.Amt("100000000000000000000000000000000000000000000000000") },
+		func(c *harness.TxSpec) {
+			c.Fee.Price.Value = harness.Amt("100000000000000000000000000000000000000000000000000")
+		},
 		func(c *harness.TxSpec) { c.Memo = strings.Repeat("m", 100000) },
 	} {
 		c := *t
@@ -364,6 +369,23 @@ func c18Exec(j c18Job) c18Res {
 			out.Halt = "two blocks after the input: " + err.Error()
 		} else if x.R.Dead {
 			out.Dead = true
+		}
+		// an input that was ACCEPTED in a block has stored something: run the blocks the scenario runs after
+		// its target (maturities, deadlines, verdicts, expiry and finalisation hooks fire there) plus two more,
+		// the node must survive every one of them
+		if j.Path != "check" && out.Code == 0 && !out.Dead && out.Halt == "" {
+			rest := len(h.Blocks) - h.Target - 1 + 2
+			for k := 0; k < rest; k++ {
+				if _, err := x.Block(harness.BlockSpec{}); err != nil {
+					out.Halt = fmt.Sprintf("%d blocks after the accepted input: %v", k+3, err)
+					break
+				}
+				if x.R.Dead {
+					out.Dead = true
+					out.Log = fmt.Sprintf("the application died %d blocks after the accepted input (a block hook tripped over what it stored)", k+3)
+					break
+				}
+			}
 		}
 	}
 	return out
